@@ -7,9 +7,12 @@ META = dict(
          "host>prflx>srflx>relay for every reliability/transport, injective local-preference packing, pair formula for ALL 32-bit "
          "priorities, role symmetry, and descending order of the check list after every operation sequence including role "
          "switches (hand-written list model over the generated comparison). Generated and hand-written parts are both executed "
-         "against the real code (candidate.c included in the harness, GLib's insert_sorted/sort, recalculate_pair_priorities).",
+         "against the real code (candidate.c included in the harness, GLib's insert_sorted/sort, recalculate_pair_priorities). The glue the "
+         "theorems cannot see (which arguments each call site passes, when a list is re-sorted) is validated on live two-agent sessions in the "
+         "deterministic simulator: candidate ranking per transport, pair formula against both candidates' current priorities, descending order "
+         "after every step (re-offers with new priorities, role changes, restarts).",
     note="trusted: Coq kernel, tools/c2v.py + clang AST (validated per run by differential execution), extraction, the check-list "
-         "model (tied by sampling). The ordering invariant on live sessions is additionally checked by the simulator (C01).",
+         "model (tied by sampling), harness/sim.c and the trace oracle sim_common.oracle_priorities.",
     technique="Coq proof over translator-regenerated definitions + list-model invariant; differential correspondence")
 
 COQ_TARGETS = ["Props/Properties_C15.vo", "Prio/Extract_Prio.vo"]
